@@ -1,5 +1,487 @@
-/- C16 — property theorems only. -/
+/-
+C16 — GeoBox and bounding-box set operations respect the common pixel grid.
+
+Property theorems only (helpers are in `Lemmas/C16.lean`).
+
+Part A  bounding-box lattice laws over any linear order (binary `|`, `&` and the n-ary
+        `bbox_union` / `bbox_intersection`).
+Part B  pixel-set semantics of `GeoBox.__and__ / __or__ / overlap_roi` on a common grid,
+        commutativity / associativity including the world affine.
+Part C  `enclosing`, `BoundingBox.round`, `BoundingBox.transform`.
+Part D  `snap_to`.
+Part E  incompatible grids are rejected.
+-/
 import OdcGeo.Model.C16
+import OdcGeo.Lemmas.C16
+import OdcGeo.Spec.PySlice
+import Mathlib.Order.Defs.LinearOrder
+import Mathlib.Order.Lattice
+import Mathlib.Tactic.Linarith
+import Mathlib.Tactic.Ring
+import Mathlib.Tactic.ByContra
+import Mathlib.Algebra.Order.Field.Rat
+
 namespace OdcGeo.C16
+open OdcGeo
+
+/-! ## Part A — BoundingBox lattice laws (any linear order) -/
+
+section BBoxLaws
+variable {α : Type} [LinearOrder α]
+
+/-- point membership (closed box) -/
+def BBox.Contains (bb : BBox α) (p : α × α) : Prop :=
+  bb.left ≤ p.1 ∧ p.1 ≤ bb.right ∧ bb.bottom ≤ p.2 ∧ p.2 ≤ bb.top
+
+/-- `a` lies within `c` (edge-wise) -/
+def BBox.Within (a c : BBox α) : Prop :=
+  c.left ≤ a.left ∧ c.bottom ≤ a.bottom ∧ a.right ≤ c.right ∧ a.top ≤ c.top
+
+/-- `a | b` computed: CRS mismatch is an error, otherwise edge-wise min / max. -/
+theorem bbox_or_eq (a b : BBox α) :
+    a.or b = if a.crs ≠ b.crs then .error .crsMismatch
+             else .ok ⟨min b.left a.left, min b.bottom a.bottom, max b.right a.right,
+                       max b.top a.top, a.crs⟩ := by
+  by_cases h : a.crs = b.crs <;> simp [BBox.or, bboxUnion, foldRes, unionStep, h]
+
+/-- `a & b` computed. -/
+theorem bbox_and_eq (a b : BBox α) :
+    a.and b = if a.crs ≠ b.crs then .error .crsMismatch
+              else .ok ⟨max b.left a.left, max b.bottom a.bottom, min b.right a.right,
+                        min b.top a.top, a.crs⟩ := by
+  by_cases h : a.crs = b.crs <;> simp [BBox.and, bboxIntersection, foldRes, interStep, h]
+
+/-- union is commutative (including the error behaviour) -/
+theorem bbox_union_comm (a b : BBox α) : a.or b = b.or a := by
+  rw [bbox_or_eq, bbox_or_eq]
+  by_cases h : a.crs = b.crs
+  · simp [h, min_comm, max_comm]
+  · have h' : ¬ b.crs = a.crs := fun e => h e.symm
+    simp [h, h']
+
+/-- intersection is commutative (including the error behaviour) -/
+theorem bbox_inter_comm (a b : BBox α) : a.and b = b.and a := by
+  rw [bbox_and_eq, bbox_and_eq]
+  by_cases h : a.crs = b.crs
+  · simp [h, min_comm, max_comm]
+  · have h' : ¬ b.crs = a.crs := fun e => h e.symm
+    simp [h, h']
+
+/-- union is associative: `(a | b) | c = a | (b | c)` (including the error behaviour) -/
+theorem bbox_union_assoc (a b c : BBox α) :
+    (a.or b >>= fun ab => ab.or c) = (b.or c >>= fun bc => a.or bc) := by
+  obtain ⟨al, ab, ar, at', ac⟩ := a
+  obtain ⟨bl, bb, br, bt, bc⟩ := b
+  obtain ⟨cl, cb, cr, ct, cc⟩ := c
+  simp only [bbox_or_eq, bind, Except.bind]
+  by_cases h1 : ac = bc
+  · subst h1
+    by_cases h2 : ac = cc
+    · subst h2
+      simp [min_comm, max_comm, min_left_comm, max_left_comm]
+    · simp [h2]
+  · by_cases h2 : bc = cc
+    · subst h2
+      simp [h1]
+    · simp [h1, h2]
+
+/-- intersection is associative -/
+theorem bbox_inter_assoc (a b c : BBox α) :
+    (a.and b >>= fun ab => ab.and c) = (b.and c >>= fun bc => a.and bc) := by
+  obtain ⟨al, ab, ar, at', ac⟩ := a
+  obtain ⟨bl, bb, br, bt, bc⟩ := b
+  obtain ⟨cl, cb, cr, ct, cc⟩ := c
+  simp only [bbox_and_eq, bind, Except.bind]
+  by_cases h1 : ac = bc
+  · subst h1
+    by_cases h2 : ac = cc
+    · subst h2
+      simp [min_comm, max_comm, min_left_comm, max_left_comm]
+    · simp [h2]
+  · by_cases h2 : bc = cc
+    · subst h2
+      simp [h1]
+    · simp [h1, h2]
+
+/-- idempotence -/
+theorem bbox_union_idem (a : BBox α) : a.or a = .ok a := by
+  rw [bbox_or_eq]; simp
+
+theorem bbox_inter_idem (a : BBox α) : a.and a = .ok a := by
+  rw [bbox_and_eq]; simp
+
+/-- absorption `a | (a & b) = a` -/
+theorem bbox_absorb₁ (a b : BBox α) (h : a.crs = b.crs) :
+    (a.and b >>= fun ab => a.or ab) = .ok a := by
+  simp [bbox_and_eq, bbox_or_eq, h, bind, Except.bind]
+  cases a; simp_all
+
+/-- absorption `a & (a | b) = a` -/
+theorem bbox_absorb₂ (a b : BBox α) (h : a.crs = b.crs) :
+    (a.or b >>= fun ab => a.and ab) = .ok a := by
+  simp [bbox_and_eq, bbox_or_eq, h, bind, Except.bind]
+  cases a; simp_all
+
+/-- the union contains both operands (edge-wise and point-wise) -/
+theorem bbox_union_contains (a b u : BBox α) (h : a.or b = .ok u) :
+    a.Within u ∧ b.Within u ∧ ∀ p, a.Contains p ∨ b.Contains p → u.Contains p := by
+  rw [bbox_or_eq] at h
+  split at h
+  · cases h
+  · cases h
+    refine ⟨⟨min_le_right _ _, min_le_right _ _, le_max_right _ _, le_max_right _ _⟩,
+            ⟨min_le_left _ _, min_le_left _ _, le_max_left _ _, le_max_left _ _⟩, ?_⟩
+    rintro p (⟨h1, h2, h3, h4⟩ | ⟨h1, h2, h3, h4⟩)
+    · exact ⟨(min_le_right _ _).trans h1, h2.trans (le_max_right _ _),
+             (min_le_right _ _).trans h3, h4.trans (le_max_right _ _)⟩
+    · exact ⟨(min_le_left _ _).trans h1, h2.trans (le_max_left _ _),
+             (min_le_left _ _).trans h3, h4.trans (le_max_left _ _)⟩
+
+/-- the union is the least box containing both operands -/
+theorem bbox_union_least (a b u c : BBox α) (h : a.or b = .ok u) (ha : a.Within c) (hb : b.Within c) :
+    u.Within c := by
+  rw [bbox_or_eq] at h
+  split at h
+  · cases h
+  · cases h
+    obtain ⟨a1, a2, a3, a4⟩ := ha
+    obtain ⟨b1, b2, b3, b4⟩ := hb
+    exact ⟨le_min b1 a1, le_min b2 a2, max_le b3 a3, max_le b4 a4⟩
+
+/-- the intersection is exactly the common point set, lies within both operands and is the
+greatest such box -/
+theorem bbox_inter_contained (a b i : BBox α) (h : a.and b = .ok i) :
+    (∀ p, i.Contains p ↔ a.Contains p ∧ b.Contains p) ∧ i.Within a ∧ i.Within b ∧
+    ∀ c : BBox α, c.Within a → c.Within b → c.Within i := by
+  rw [bbox_and_eq] at h
+  split at h
+  · cases h
+  · cases h
+    refine ⟨?_, ⟨le_max_right _ _, le_max_right _ _, min_le_right _ _, min_le_right _ _⟩,
+            ⟨le_max_left _ _, le_max_left _ _, min_le_left _ _, min_le_left _ _⟩, ?_⟩
+    · intro p
+      simp only [BBox.Contains, max_le_iff, le_min_iff]
+      tauto
+    · rintro c ⟨a1, a2, a3, a4⟩ ⟨b1, b2, b3, b4⟩
+      exact ⟨max_le b1 a1, max_le b2 a2, le_min b3 a3, le_min b4 a4⟩
+
+/-! n-ary forms: `bbox_union(stream)`, `bbox_intersection(stream)` -/
+
+/-- n-ary union of a non-empty stream: contains every member and is the least such box; an
+empty stream is an error. -/
+theorem bbox_union_list (b : BBox α) (bs : List (BBox α)) (u : BBox α)
+    (h : bboxUnion (b :: bs) = .ok u) :
+    (∀ x ∈ b :: bs, x.Within u) ∧
+    (∀ c : BBox α, (∀ x ∈ b :: bs, x.Within c) → u.Within c) := by
+  simp only [bboxUnion] at h
+  induction bs generalizing b with
+  | nil =>
+    simp only [foldRes] at h; cases h
+    exact ⟨by simp [BBox.Within], fun c hc => hc _ (by simp)⟩
+  | cons x xs ih =>
+    simp only [foldRes, unionStep] at h
+    split at h
+    · cases h
+    · rename_i acc' hstep
+      split at hstep
+      · cases hstep
+      · cases hstep
+        obtain ⟨ih1, ih2⟩ := ih _ h
+        have hacc := ih1 _ (List.mem_cons_self ..)
+        obtain ⟨c1, c2, c3, c4⟩ := hacc
+        constructor
+        · intro y hy
+          rcases List.mem_cons.mp hy with rfl | hy
+          · exact ⟨c1.trans (min_le_right _ _), c2.trans (min_le_right _ _),
+                   (le_max_right _ _).trans c3, (le_max_right _ _).trans c4⟩
+          rcases List.mem_cons.mp hy with rfl | hy
+          · exact ⟨c1.trans (min_le_left _ _), c2.trans (min_le_left _ _),
+                   (le_max_left _ _).trans c3, (le_max_left _ _).trans c4⟩
+          · exact ih1 _ (List.mem_cons_of_mem _ hy)
+        · intro c hc
+          apply ih2
+          intro y hy
+          rcases List.mem_cons.mp hy with rfl | hy
+          · obtain ⟨a1, a2, a3, a4⟩ := hc b (by simp)
+            obtain ⟨b1, b2, b3, b4⟩ := hc x (by simp)
+            exact ⟨le_min b1 a1, le_min b2 a2, max_le b3 a3, max_le b4 a4⟩
+          · exact hc _ (by simp [hy])
+
+theorem bbox_union_empty : bboxUnion ([] : List (BBox α)) = .error .valueError := rfl
+theorem bbox_inter_empty : bboxIntersection ([] : List (BBox α)) = .error .valueError := rfl
+
+/-- n-ary intersection: exactly the points common to every member. -/
+theorem bbox_inter_list (b : BBox α) (bs : List (BBox α)) (i : BBox α)
+    (h : bboxIntersection (b :: bs) = .ok i) (p : α × α) :
+    i.Contains p ↔ ∀ x ∈ b :: bs, x.Contains p := by
+  simp only [bboxIntersection] at h
+  induction bs generalizing b with
+  | nil => simp only [foldRes] at h; cases h; simp
+  | cons x xs ih =>
+    simp only [foldRes, interStep] at h
+    split at h
+    · cases h
+    · rename_i acc' hstep
+      split at hstep
+      · cases hstep
+      · cases hstep
+        rw [ih _ h]
+        simp only [List.forall_mem_cons, BBox.Contains, max_le_iff, le_min_iff]
+        tauto
+
+end BBoxLaws
+
+/-! ## Part B — pixel-set semantics on a common grid
+
+The family of a base grid `g0` ("derived from a base grid by integer pixel shifts and arbitrary
+shapes"): `onGrid g0 r` is `g0` shifted so that it covers the index rectangle `r` of `g0`'s pixel
+frame.  `g0` may be any GeoBox with an invertible affine: north-up, mirrored, rotated, sheared. -/
+
+/-- integer pixel rectangle: columns `x0 ≤ i < x1`, rows `y0 ≤ j < y1` -/
+structure Rect where
+  x0 : Int
+  y0 : Int
+  x1 : Int
+  y1 : Int
+  deriving DecidableEq
+
+/-- member of the family of `g0` covering `r` -/
+def onGrid (g0 : GeoBox) (r : Rect) : GeoBox :=
+  ⟨r.y1 - r.y0, r.x1 - r.x0, g0.aff * Aff.translation r.x0 r.y0, g0.crs⟩
+
+/-- shapes are non-negative -/
+def Rect.Valid (r : Rect) : Prop := r.x0 ≤ r.x1 ∧ r.y0 ≤ r.y1
+/-- at least one pixel -/
+def Rect.NonEmpty (r : Rect) : Prop := r.x0 < r.x1 ∧ r.y0 < r.y1
+
+/-- smallest rectangle containing both -/
+def Rect.union (r s : Rect) : Rect := ⟨min r.x0 s.x0, min r.y0 s.y0, max r.x1 s.x1, max r.y1 s.y1⟩
+
+/-- common pixels; a missing overlap on an axis gives a zero extent at `max` of the starts -/
+def Rect.inter (r s : Rect) : Rect :=
+  ⟨max r.x0 s.x0, max r.y0 s.y0, max (max r.x0 s.x0) (min r.x1 s.x1), max (max r.y0 s.y0) (min r.y1 s.y1)⟩
+
+/-- The world position (corner) of a pixel identifies it on a common grid: `w` is a pixel of `g`. -/
+def HasPixel (g : GeoBox) (w : Rat × Rat) : Prop :=
+  ∃ i j : Int, 0 ≤ i ∧ i < g.nx ∧ 0 ≤ j ∧ j < g.ny ∧ g.aff.apply ((i : Rat), (j : Rat)) = w
+
+/-- Every GeoBox that is `g0` shifted by whole pixels (same CRS) is a member of the family. -/
+theorem eq_onGrid (g0 g : GeoBox) (tx ty : Int) (h : g.aff = g0.aff * Aff.translation tx ty)
+    (hc : g.crs = g0.crs) : g = onGrid g0 ⟨tx, ty, tx + g.nx, ty + g.ny⟩ := by
+  obtain ⟨ny, nx, aff, crs⟩ := g
+  simp only [onGrid, GeoBox.mk.injEq]
+  simp only at h hc
+  refine ⟨by omega, by omega, h, hc⟩
+
+/-- in particular the base itself -/
+theorem self_onGrid (g : GeoBox) : g = onGrid g ⟨0, 0, g.nx, g.ny⟩ := by
+  have := eq_onGrid g g 0 0 (by simp [translation_zero, Aff.mul_id]) rfl
+  simpa using this
+
+theorem hasPixel_onGrid (g0 : GeoBox) (r : Rect) (w : Rat × Rat) :
+    HasPixel (onGrid g0 r) w ↔
+      ∃ i j : Int, r.x0 ≤ i ∧ i < r.x1 ∧ r.y0 ≤ j ∧ j < r.y1 ∧ g0.aff.apply ((i : Rat), (j : Rat)) = w := by
+  simp only [HasPixel, onGrid, apply_mul_translation]
+  constructor
+  · rintro ⟨i, j, h1, h2, h3, h4, h5⟩
+    refine ⟨i + r.x0, j + r.y0, by omega, by omega, by omega, by omega, ?_⟩
+    push_cast
+    exact h5
+  · rintro ⟨i, j, h1, h2, h3, h4, h5⟩
+    refine ⟨i - r.x0, j - r.y0, by omega, by omega, by omega, by omega, ?_⟩
+    push_cast
+    rw [← h5]
+    congr 2 <;> ring
+
+/-- `bounding_box_in_pixel_domain` between two members of a family -/
+theorem bbpd_onGrid (g0 : GeoBox) (hdet : g0.aff.det ≠ 0) (r s : Rect) (tol : Rat) (htol : 0 < tol) :
+    bboxInPixelDomain (onGrid g0 s) (onGrid g0 r) tol =
+      .ok ⟨s.x0 - r.x0, s.y0 - r.y0, s.x0 - r.x0 + (s.x1 - s.x0), s.y0 - r.y0 + (s.y1 - s.y0), none⟩ := by
+  refine bboxInPixelDomain_of_mul (onGrid g0 s) (onGrid g0 r) rfl ?_ (s.x0 - r.x0) (s.y0 - r.y0) ?_ tol htol
+  · simpa [onGrid, det_mul_translation] using hdet
+  · simp only [onGrid]
+    rw [Aff.mul_assoc', translation_mul_translation]
+    congr 2 <;> push_cast <;> ring
+
+theorem geoboxOfPixBBox_onGrid (g0 : GeoBox) (r : Rect) (bb : BBox Int) :
+    geoboxOfPixBBox (onGrid g0 r) bb =
+      onGrid g0 ⟨r.x0 + bb.left, r.y0 + bb.bottom, r.x0 + bb.right, r.y0 + bb.top⟩ := by
+  simp only [geoboxOfPixBBox, onGrid, GeoBox.mk.injEq]
+  refine ⟨by omega, by omega, ?_, trivial⟩
+  rw [Aff.mul_assoc', translation_mul_translation]
+  congr 2 <;> push_cast <;> ring
+
+theorem normEmpty_eq (bb : BBox Int) :
+    normEmpty bb = ⟨bb.left, bb.bottom, max bb.left bb.right, max bb.bottom bb.top, bb.crs⟩ := by
+  obtain ⟨l, b, r, t, c⟩ := bb
+  unfold normEmpty
+  by_cases h1 : l > r <;> by_cases h2 : b > t <;> simp [h1, h2] <;> omega
+
+/-- `a | b` on a common grid is the member of the family covering the smallest rectangle that
+contains both — whichever operand is the reference. -/
+theorem or_onGrid (g0 : GeoBox) (hdet : g0.aff.det ≠ 0) (r s : Rect) :
+    (onGrid g0 r).or (onGrid g0 s) = .ok (onGrid g0 (r.union s)) := by
+  simp only [GeoBox.or, geoboxUnionConservative, allBBoxes, bbpd_onGrid g0 hdet _ _ _ tolPix_pos,
+    bboxUnion, foldRes, unionStep, geoboxOfPixBBox_onGrid]
+  simp only [ne_eq, not_true_eq_false, if_false, Rect.union]
+  congr 2
+  simp only [Rect.mk.injEq]
+  omega
+
+/-- `a & b` on a common grid is the member of the family covering exactly the common rectangle
+(zero extent when there is none) — whichever operand is the reference. -/
+theorem and_onGrid (g0 : GeoBox) (hdet : g0.aff.det ≠ 0) (r s : Rect) :
+    (onGrid g0 r).and (onGrid g0 s) = .ok (onGrid g0 (r.inter s)) := by
+  simp only [GeoBox.and, geoboxIntersectionConservative, allBBoxes, bbpd_onGrid g0 hdet _ _ _ tolPix_pos,
+    bboxIntersection, foldRes, interStep, geoboxOfPixBBox_onGrid, normEmpty_eq]
+  simp only [ne_eq, not_true_eq_false, if_false, Rect.inter]
+  congr 2
+  simp only [Rect.mk.injEq]
+  omega
+
+/-- index form of pixel membership (needs an invertible grid so that world positions identify pixels) -/
+theorem hasPixel_idx (g0 : GeoBox) (hdet : g0.aff.det ≠ 0) (t : Rect) (i j : Int) :
+    HasPixel (onGrid g0 t) (g0.aff.apply ((i : Rat), (j : Rat))) ↔
+      t.x0 ≤ i ∧ i < t.x1 ∧ t.y0 ≤ j ∧ j < t.y1 := by
+  rw [hasPixel_onGrid]
+  constructor
+  · rintro ⟨i', j', h1, h2, h3, h4, h5⟩
+    have := apply_injective g0.aff hdet h5
+    simp only [Prod.mk.injEq, Int.cast_inj] at this
+    obtain ⟨rfl, rfl⟩ := this
+    exact ⟨h1, h2, h3, h4⟩
+  · rintro ⟨h1, h2, h3, h4⟩
+    exact ⟨i, j, h1, h2, h3, h4, rfl⟩
+
+/-- **Intersection is exactly the set of shared pixels** (an empty GeoBox when there are none;
+never a negative shape). -/
+theorem inter_pixels (g0 : GeoBox) (hdet : g0.aff.det ≠ 0) (r s : Rect) :
+    ∃ g, (onGrid g0 r).and (onGrid g0 s) = .ok g ∧
+      (∀ w, HasPixel g w ↔ HasPixel (onGrid g0 r) w ∧ HasPixel (onGrid g0 s) w) ∧
+      (g.isEmpty = true ↔ ¬ ∃ w, HasPixel (onGrid g0 r) w ∧ HasPixel (onGrid g0 s) w) ∧
+      0 ≤ g.nx ∧ 0 ≤ g.ny := by
+  refine ⟨_, and_onGrid g0 hdet r s, ?_, ?_, ?_, ?_⟩
+  · intro w
+    constructor
+    · intro h
+      obtain ⟨i, j, h1, h2, h3, h4, rfl⟩ := (hasPixel_onGrid _ _ _).mp h
+      simp only [Rect.inter] at h1 h2 h3 h4
+      rw [hasPixel_idx g0 hdet, hasPixel_idx g0 hdet]
+      omega
+    · rintro ⟨hr, hs⟩
+      obtain ⟨i, j, h1, h2, h3, h4, rfl⟩ := (hasPixel_onGrid _ _ _).mp hr
+      rw [hasPixel_idx g0 hdet] at hs ⊢
+      simp only [Rect.inter]
+      omega
+  · simp only [GeoBox.isEmpty, Bool.or_eq_true, beq_iff_eq]
+    have e1 : (onGrid g0 (r.inter s)).ny = max (max r.y0 s.y0) (min r.y1 s.y1) - max r.y0 s.y0 := rfl
+    have e2 : (onGrid g0 (r.inter s)).nx = max (max r.x0 s.x0) (min r.x1 s.x1) - max r.x0 s.x0 := rfl
+    rw [e1, e2]
+    constructor
+    · rintro h ⟨w, hr, hs⟩
+      obtain ⟨i, j, h1, h2, h3, h4, rfl⟩ := (hasPixel_onGrid _ _ _).mp hr
+      rw [hasPixel_idx g0 hdet] at hs
+      omega
+    · intro h
+      by_contra hne
+      apply h
+      refine ⟨g0.aff.apply (((max r.x0 s.x0 : Int) : Rat), ((max r.y0 s.y0 : Int) : Rat)), ?_, ?_⟩ <;>
+        rw [hasPixel_idx g0 hdet] <;> omega
+  · simp only [onGrid, Rect.inter]; omega
+  · simp only [onGrid, Rect.inter]; omega
+
+/-- **Union is the smallest GeoBox on the grid containing the operands.** -/
+theorem union_smallest (g0 : GeoBox) (hdet : g0.aff.det ≠ 0) (r s : Rect) :
+    ∃ g, (onGrid g0 r).or (onGrid g0 s) = .ok g ∧
+      (∀ w, HasPixel (onGrid g0 r) w ∨ HasPixel (onGrid g0 s) w → HasPixel g w) ∧
+      (r.NonEmpty → s.NonEmpty → ∀ t : Rect,
+        (∀ w, HasPixel (onGrid g0 r) w ∨ HasPixel (onGrid g0 s) w → HasPixel (onGrid g0 t) w) →
+        ∀ w, HasPixel g w → HasPixel (onGrid g0 t) w) := by
+  refine ⟨_, or_onGrid g0 hdet r s, ?_, ?_⟩
+  · rintro w (h | h) <;>
+    · obtain ⟨i, j, h1, h2, h3, h4, rfl⟩ := (hasPixel_onGrid _ _ _).mp h
+      rw [hasPixel_idx g0 hdet]
+      simp only [Rect.union]
+      omega
+  · rintro ⟨hr1, hr2⟩ ⟨hs1, hs2⟩ t ht w hw
+    obtain ⟨i, j, h1, h2, h3, h4, rfl⟩ := (hasPixel_onGrid _ _ _).mp hw
+    simp only [Rect.union] at h1 h2 h3 h4
+    -- the two extreme pixels of each operand are in `t`
+    have r_lo := ht (g0.aff.apply ((r.x0 : Rat), (r.y0 : Rat)))
+      (Or.inl ((hasPixel_idx g0 hdet r _ _).mpr (by omega)))
+    have r_hi := ht (g0.aff.apply (((r.x1 - 1 : Int) : Rat), ((r.y1 - 1 : Int) : Rat)))
+      (Or.inl ((hasPixel_idx g0 hdet r _ _).mpr (by omega)))
+    have s_lo := ht (g0.aff.apply ((s.x0 : Rat), (s.y0 : Rat)))
+      (Or.inr ((hasPixel_idx g0 hdet s _ _).mpr (by omega)))
+    have s_hi := ht (g0.aff.apply (((s.x1 - 1 : Int) : Rat), ((s.y1 - 1 : Int) : Rat)))
+      (Or.inr ((hasPixel_idx g0 hdet s _ _).mpr (by omega)))
+    rw [hasPixel_idx g0 hdet] at r_lo r_hi s_lo s_hi ⊢
+    omega
+
+/-- **`overlap_roi` indexes exactly the shared pixels within the first operand**, under numpy's
+slice semantics (`Spec/PySlice`), for every tolerance `tol > 0`. -/
+theorem overlap_roi_exact (g0 : GeoBox) (hdet : g0.aff.det ≠ 0) (r s : Rect) (hr : r.Valid)
+    (tol : Rat) (htol : 0 < tol) :
+    ∃ roi, (onGrid g0 r).overlapRoi (onGrid g0 s) tol = .ok roi ∧
+      ∀ i j : Int,
+        (PySlice.Sel (onGrid g0 r).nx (.slc (some roi.x0) (some roi.x1)) i ∧
+         PySlice.Sel (onGrid g0 r).ny (.slc (some roi.y0) (some roi.y1)) j) ↔
+        (0 ≤ i ∧ i < (onGrid g0 r).nx ∧ 0 ≤ j ∧ j < (onGrid g0 r).ny ∧
+         HasPixel (onGrid g0 s) ((onGrid g0 r).aff.apply ((i : Rat), (j : Rat)))) := by
+  simp only [GeoBox.overlapRoi, bbpd_onGrid g0 hdet _ _ _ htol]
+  refine ⟨_, rfl, ?_⟩
+  intro i j
+  have hw : (onGrid g0 r).aff.apply ((i : Rat), (j : Rat)) =
+      g0.aff.apply (((i + r.x0 : Int) : Rat), ((j + r.y0 : Int) : Rat)) := by
+    simp only [onGrid, apply_mul_translation]; push_cast; rfl
+  rw [hw, hasPixel_idx g0 hdet]
+  obtain ⟨hr1, hr2⟩ := hr
+  simp only [PySlice.Sel, PySlice.bounds, PySlice.clampBound, onGrid]
+  omega
+
+/-- commutativity, **including the world affine whichever operand is the reference** -/
+theorem union_comm_world (g0 : GeoBox) (hdet : g0.aff.det ≠ 0) (r s : Rect) :
+    (onGrid g0 r).or (onGrid g0 s) = (onGrid g0 s).or (onGrid g0 r) := by
+  rw [or_onGrid g0 hdet, or_onGrid g0 hdet]
+  congr 2
+  simp only [Rect.union, Rect.mk.injEq]
+  omega
+
+theorem inter_comm_world (g0 : GeoBox) (hdet : g0.aff.det ≠ 0) (r s : Rect) :
+    (onGrid g0 r).and (onGrid g0 s) = (onGrid g0 s).and (onGrid g0 r) := by
+  rw [and_onGrid g0 hdet, and_onGrid g0 hdet]
+  congr 2
+  simp only [Rect.inter, Rect.mk.injEq]
+  omega
+
+/-- associativity `(a | b) | c = a | (b | c)`: same shape and same world affine although the
+reference operand differs (`a | b` on the left, `a` on the right) -/
+theorem union_assoc_world (g0 : GeoBox) (hdet : g0.aff.det ≠ 0) (r s t : Rect) :
+    ((onGrid g0 r).or (onGrid g0 s) >>= fun x => x.or (onGrid g0 t)) =
+    ((onGrid g0 s).or (onGrid g0 t) >>= fun y => (onGrid g0 r).or y) := by
+  simp only [or_onGrid g0 hdet, bind, Except.bind]
+  congr 2
+  simp only [Rect.union, Rect.mk.injEq]
+  omega
+
+/-- associativity of intersection, empty intermediate results included -/
+theorem inter_assoc_world (g0 : GeoBox) (hdet : g0.aff.det ≠ 0) (r s t : Rect) :
+    ((onGrid g0 r).and (onGrid g0 s) >>= fun x => x.and (onGrid g0 t)) =
+    ((onGrid g0 s).and (onGrid g0 t) >>= fun y => (onGrid g0 r).and y) := by
+  simp only [and_onGrid g0 hdet, bind, Except.bind]
+  congr 2
+  simp only [Rect.inter, Rect.mk.injEq]
+  omega
+
+/-- The same facts phrased for two arbitrary GeoBoxes related by a whole-pixel shift. -/
+theorem union_inter_comm_of_shift (a b : GeoBox) (hdet : a.aff.det ≠ 0) (tx ty : Int)
+    (h : b.aff = a.aff * Aff.translation tx ty) (hc : b.crs = a.crs) :
+    a.or b = b.or a ∧ a.and b = b.and a := by
+  have ha := self_onGrid a
+  have hb := eq_onGrid a b tx ty h hc
+  have h1 := union_comm_world a hdet ⟨0, 0, a.nx, a.ny⟩ ⟨tx, ty, tx + b.nx, ty + b.ny⟩
+  have h2 := inter_comm_world a hdet ⟨0, 0, a.nx, a.ny⟩ ⟨tx, ty, tx + b.nx, ty + b.ny⟩
+  rw [← hb, ← ha] at h1 h2
+  exact ⟨h1, h2⟩
 
 end OdcGeo.C16
